@@ -557,3 +557,82 @@ Section Typed.
     - apply (SS_NoDup typed t_ltb t_ltb_irrefl), S'.
   Qed.
 End Typed.
+
+(* ------------------------------------------------------------------ [texts_ok] is satisfiable *)
+
+(* A toy text encoding with the required laws (fixed-width, scheme byte first; address hashes are
+   escaped so that no '%' occurs).  It shows the hypotheses of the theorems are consistent and
+   serves the refutation example below; the real base58check texts are supplied by the harness. *)
+Definition akind_byte (k : akind) : byte :=
+  match k with AImpl c => curve_byte c | AKT => x04 | ATxr => x05 | ASr => x06 end.
+
+Definition esc (b : byte) : bytes :=
+  if byte_eqb b x25 then [x24; x01] else if byte_eqb b x24 then [x24; x00] else [b].
+
+Definition demo_texts : texts :=
+  {| kh_txt := fun c h => curve_byte c :: h;
+     key_txt := fun c p => curve_byte c :: p;
+     cid_txt := fun x => x;
+     addr_txt := fun k h => akind_byte k :: flat_map esc h |}.
+
+Lemma curve_byte_inj c c' : curve_byte c = curve_byte c' -> c = c'.
+Proof. destruct c, c'; simpl; intro H; try reflexivity; discriminate. Qed.
+
+Lemma akind_byte_inj k k' : akind_byte k = akind_byte k' -> k = k'.
+Proof.
+  destruct k as [[]| | |], k' as [[]| | |]; simpl; intro H; try reflexivity; discriminate.
+Qed.
+
+Lemma byte_eqb_false a b : byte_eqb a b = false -> a <> b.
+Proof. intros H E. apply byte_eqb_spec in E. congruence. Qed.
+
+Lemma esc_prefix b b' R R' : esc b ++ R = esc b' ++ R' -> b = b' /\ R = R'.
+Proof.
+  unfold esc.
+  destruct (byte_eqb b x25) eqn:A; destruct (byte_eqb b' x25) eqn:A';
+    try (apply byte_eqb_spec in A); try (apply byte_eqb_spec in A');
+    try destruct (byte_eqb b x24) eqn:B; try destruct (byte_eqb b' x24) eqn:B';
+    try (apply byte_eqb_spec in B); try (apply byte_eqb_spec in B');
+    simpl; intro H; injection H; intros; subst; try discriminate;
+    try (split; reflexivity);
+    try (apply byte_eqb_false in B; congruence); try (apply byte_eqb_false in B'; congruence).
+Qed.
+
+Lemma flat_esc_inj h : forall h', flat_map esc h = flat_map esc h' -> h = h'.
+Proof.
+  induction h as [|b h IH]; intros [|b' h']; simpl; intro H.
+  - reflexivity.
+  - exfalso. unfold esc in H. destruct (byte_eqb b' x25); [discriminate|]. destruct (byte_eqb b' x24); discriminate.
+  - exfalso. unfold esc in H. destruct (byte_eqb b x25); [discriminate|]. destruct (byte_eqb b x24); discriminate.
+  - apply esc_prefix in H. destruct H as [-> H]. f_equal. apply IH, H.
+Qed.
+
+Lemma esc_no_pct b : ~ In pct (esc b).
+Proof.
+  unfold esc, pct. destruct (byte_eqb b x25) eqn:A.
+  - simpl. intros [X|[X|[]]]; discriminate.
+  - destruct (byte_eqb b x24) eqn:B; simpl.
+    + intros [X|[X|[]]]; discriminate.
+    + intros [X|[]]. apply byte_eqb_false in A. congruence.
+Qed.
+
+Lemma demo_texts_ok : texts_ok demo_texts.
+Proof.
+  constructor; simpl.
+  - intros c h c' h' _ _. destruct c, c'; reflexivity.
+  - reflexivity.
+  - intros c p c' p' _ _ H. injection H as H1 H2. apply curve_byte_inj in H1. tauto.
+  - intros k h k' h' _ _ H. injection H as H1 H2. apply akind_byte_inj in H1. apply flat_esc_inj in H2. tauto.
+  - intros k h [X|X].
+    + destruct k as [[]| | |]; discriminate.
+    + apply in_flat_map in X. destruct X as [b [_ X]]. exact (esc_no_pct b X).
+Qed.
+
+(* known finding address-empty-entrypoint: "A%" against "A" — unequal, yet neither is smaller *)
+Lemma empty_entrypoint_refuted :
+  exists T a b, texts_ok T /\ a <> b /\ py_compare T a b = Gt /\ py_compare T b a = Gt /\
+    has_type TAddress b = true /\ has_type TAddress a = false.
+Proof.
+  exists demo_texts, (VAddr AKT (repeat x11 20) (Some [])), (VAddr AKT (repeat x11 20) None).
+  split; [exact demo_texts_ok|]. split; [discriminate|]. vm_compute. repeat split; reflexivity.
+Qed.
